@@ -635,7 +635,9 @@ package ackhandler
 //@   let nr = len(ack.AckRanges)
 //@   requires ack != nil && ack.rangesValid() && h != nil && pnSpace != nil && arg1 != nil
 //@   requires lowestAcked == ack.AckRanges[nr - 1].Smallest && largestAcked == ack.AckRanges[0].Largest && 0 <= ackRangeIndex && ackRangeIndex <= nr - 1
+//@   requires forall(k, 0, ackRangeIndex, ack.AckRanges[nr - 1 - k].Largest < arg0)
 //@   let appended = len(h.ackedPackets) - old(len(h.ackedPackets))
+//@   ensures [a-valid-ack-never-hits-the-internal-error] _1 == old(_1) && (result || jump == 2)
 //@   ensures [only-acknowledged-packets-are-acked] (appended == 0 || appended == 1) && implies(appended == 1, wire.ackcovers(ack, arg0))
 //@   ensures [range-cursor-monotone] old(ackRangeIndex) <= ackRangeIndex && ackRangeIndex <= nr - 1
 //@   ensures [ack-eliciting-only-from-acked] implies(hasAckEliciting && !old(hasAckEliciting), appended == 1 && (len(arg1.StreamFrames) > 0 || len(arg1.Frames) > 0))
@@ -1042,6 +1044,7 @@ package ackhandler
 //@   requires 1 <= encLevel && encLevel <= 4 && ack.rangesValid() && sp != nil
 //@   ensures [busy-is-an-error] implies(old(len(h.ackedPackets)) > 0, result2 != nil && len(result0) == 0 && !result1)
 //@   ensures [nothing-forwarded-before-the-removal-loop] called("field:ignorePacketsBelow") == 0
+//@   unclaimed pre:(*sentPacketHandler).detectAndRemoveAckedPackets$2@8.2 "every ACK range the cursor has passed lies below this packet" holds because the history yields packet numbers in ascending order; an order property of the iterator is outside the composition rule (which treats the yielded elements as independent), so it is assumed here and proved useful in the body
 //@   modifies everything
 //@ loop (h *sentPacketHandler) detectAndRemoveAckedPackets#head #rf1
 //@   invariant _1 == nil && !hasAckEliciting
@@ -1150,3 +1153,23 @@ package ackhandler
 //@   unclaimed pre:(*sentPacketHistory).SkippedPacket@19.nopanic0 the generator's numbers continue the history's: an invariant relating two objects of the space, assumed
 //@   unclaimed pre:(*sentPacketHandler).setLossDetectionTimer@0.0 the handler's representation invariant at the deferred call: the loss-detection callees (detectLostPackets, PopPacketNumber) are under contracts that do not state a frame, so it is assumed here
 //@   modifies everything
+
+// ReceivedAck, up to the point where acknowledged packets are looked up: an ACK whose largest acknowledged packet number is
+// above the largest packet number SENT in that space is a PROTOCOL_VIOLATION and nothing else happens (the reference is what
+// was sent, not what the generator would hand out next); a client that sees a Handshake or 1-RTT ACK stops waiting for
+// address validation and re-arms the timer.
+//@ func (h *sentPacketHandler) ReceivedAck
+//@   props C06
+//@   opt cutbefore (*sentPacketHandler).detectAndRemoveAckedPackets
+//@   let sp = ite(encLevel == 1, h.initialPackets, ite(encLevel == 2, h.handshakePackets, h.appDataPackets))
+//@   requires 1 <= encLevel && encLevel <= 4 && sp != nil && ack != nil && len(ack.AckRanges) >= 1 && h.sInv() && 0 <= rcvTime && rcvTime <= 4611686018427387903
+//@   let unsent = ack.AckRanges[0].Largest > sp.largestSent
+//@   ensures [ack-for-an-unsent-packet-is-a-protocol-violation] implies(unsent, h.peerCompletedAddressValidation == old(h.peerCompletedAddressValidation) && called("(*sentPacketHandler).setLossDetectionTimer") == 0 && h.bytesInFlight == old(h.bytesInFlight))
+//@   ensures [client-address-validation-completed-by-protected-ack] implies(!unsent, h.peerCompletedAddressValidation == (old(h.peerCompletedAddressValidation) || (h.perspective == protocol.PerspectiveClient && (encLevel == 2 || encLevel == 4))))
+//@   ensures [timer-rearmed-when-validation-completes] implies(!unsent && h.perspective == protocol.PerspectiveClient && !old(h.peerCompletedAddressValidation) && (encLevel == 2 || encLevel == 4), called("(*sentPacketHandler).setLossDetectionTimer") == 1)
+//@   modifies h.peerCompletedAddressValidation, h.alarm.Time, h.alarm.TimerType, h.alarm.EncryptionLevel
+
+//@ func IsFrameTypeAckEliciting
+//@   props C07
+//@   ensures [all-but-ack-and-close] iff(result, t != 2 && t != 3 && t != 28 && t != 29)
+//@   modifies nothing
